@@ -103,6 +103,17 @@ Proof. exact (fun _ => any_sequence). Qed.
 Theorem C19_readers_are_locked : explorer_reader_locked = true.
 Proof. reflexivity. Qed.
 
+(* (4'') recorded: the "nothing new" guard of updateGuardianSets must be evaluated inside the critical section (the extractor checks
+   that it is).  On a snapshot taken before it, two deliveries of the same new set both pass: the set is appended twice, and after
+   the next rotation the lookup of index 2 returns set 1; with the guard under the lock the second delivery is a no-op. *)
+Theorem C19_guard_outside_lock_refuted :
+  let s0 := {| cur := 0; lists := [ex_set 0] |} in
+  let s1 := update_guard_on_snapshot 0 (update_guard_on_snapshot 0 s0 [ex_set 1]) [ex_set 1] in
+  let s2 := update s1 [ex_set 2] in
+  map g_index (lists s1) = [0; 1; 1] /\ cur s2 = 2 /\ nth_set s2 2 = Some (ex_set 1) /\
+  update (update s0 [ex_set 1]) [ex_set 1] = update s0 [ex_set 1].
+Proof. exact guard_on_snapshot_misaligns. Qed.
+
 (* what the lock is for: the reader of the original code (no lock), index written before the append — writer stores the index,
    reader compares and indexes the old list: out of range *)
 Theorem C19_unlocked_reader_refuted :
@@ -146,3 +157,4 @@ Print Assumptions C19_interleaving.
 Print Assumptions C19_unlocked_reader_refuted.
 Print Assumptions C19_any_number_of_lookups_and_appends.
 Print Assumptions C19_readers_are_locked.
+Print Assumptions C19_guard_outside_lock_refuted.
